@@ -13,13 +13,13 @@ def plan(tier, seed):
     for n in ns:
         for ol, oe in shapes:
             envv = dict(VERIF_N=n, VERIF_OPT_LIST=ol, VERIF_OPT_ELEM=oe)
-            hs = ["h_assemble_split", "h_assemble_one_page"]
-            if n >= 4 or tier == "thorough":
-                hs.append("h_assemble_two_splits")
+            hs = ["h_assemble_split", "h_assemble_one_page", "h_read_col_list"]
+            hs.append("h_assemble_two_splits")
             for h in hs:
                 if h == "h_assemble_two_splits" and n < 3:
                     continue
-                j = ch("C15", F, h, t, ["cencoding._assemble_objects"], shape=dict(n=n, optional_list=ol,
+                j = ch("C15", F, h, t, ["cencoding._assemble_objects"] + (
+                    ["core.read_col", "schema.SchemaHelper"] if h == "h_read_col_list" else []), shape=dict(n=n, optional_list=ol,
                                                                                   optional_element=oe), env=envv)
                 j["name"] += "[n=%d,list=%d,elem=%d]" % (n, ol, oe)
                 jobs.append(j)
